@@ -161,4 +161,8 @@ def SSet.step (X : SSet) : Op → SSet × Res
     | (X1, .readOnly l) => (X1, .readOnly l)
   | .setParams ps => (setParams ps X, .done)
 
+def SSet.run (X : SSet) : List Op → SSet
+  | [] => X
+  | op :: ops => SSet.run (X.step op).1 ops
+
 end YashModel.Variable
